@@ -67,6 +67,8 @@ def _ops_for(rng, piece_lens, drains=True):
     ops = []
     for n in piece_lens:
         ops.append({"ev": "feed", "m": rng.choice(METHODS), "n": n})
+        if rng.random() < 0.08:
+            ops.append({"ev": "flush"})
         if drains and rng.random() < 0.4:
             mode = rng.choice(["slices", "bytes", "read"])
             n2 = rng.choice([0, 1, 1, 2, 3, 5, 1000000])
@@ -383,3 +385,56 @@ def replay(rep, work):
     trace = core.drive("codec", [run], work, "replay")
     tv = tlc.validate_trace("HcobsTrace", "HcobsTrace.cfg", trace, os.path.join(work, "tv"), xmx="8g")
     return tv["viol"] + core.crash_viols(("C01", "C07", "C05"))
+
+
+# ---------------------------------------------------------------- long streams (C10 footprint, C09 lag)
+def run_footprint(res, work, tier, seed):
+    os.makedirs(work, exist_ok=True)
+    rng = random.Random(seed * 7919 + 10)
+    mib = 1 << 20
+    total = (64 if tier == "quick" else 512) * mib
+    runs = []
+    rid = 0
+    shapes = ["ones", "nostuff", "dense", "random"]
+    combos = []
+    for kind in ("enc", "pipeline"):
+        for shape in shapes:
+            for m in ("copy", "borrow", "read"):
+                for drain in ("bytes", "slices", "read"):
+                    combos.append((kind, shape, m, drain))
+    rng.shuffle(combos)
+    # every (kind, method, drain) triple appears at least once; shapes rotate
+    seen = set()
+    chosen = []
+    for c in combos:
+        key = (c[0], c[2], c[3])
+        if key not in seen or tier != "quick":
+            seen.add(key)
+            chosen.append(c)
+    for kind, shape, m, drain in chosen:
+        rid += 1
+        sizes = rng.choice([[1, 7, 1000, 65536, 300000], [65536], [300000, 1, 1, 7], [131072, 4096, 100, 1000]])
+        t = total if shape != "dense" else total // 4          # dense = many tiny chunks: slower per byte
+        if kind == "pipeline":
+            t //= 2
+        runs.append({"run": rid, "cfg": {"kind": kind, "shape": shape, "total": t, "sizes": sizes, "m": m,
+                                         "drain": drain, "seed": rng.randrange(1 << 30)}, "ops": []})
+    for big in ([12 * mib] if tier == "quick" else [12 * mib, 96 * mib]):
+        rid += 1
+        runs.append({"run": rid, "cfg": {"kind": "sreader", "shape": "nostuff", "total": big, "sizes": [1], "big": big,
+                                         "seed": 5}, "ops": []})
+    trace = core.drive("footprint", runs, work, "footprint", timeout=7000)
+    tv = tlc.validate_trace("FootprintTrace", "FootprintTrace.cfg", trace, os.path.join(work, "tv"), timeout=3000)
+    res.add_tv(tv, {r["run"]: r for r in runs}, "footprint", "long streams", crash_props=("C10",))
+    rule = ("distinct long-stream runs (object kind x payload shape x input method x drain API x call-size schedule), "
+            "%d MiB each (less for FE/FD-dense payloads), plus StreamReader runs skipping an oversized record" % (total // mib))
+    for p in ("C10", "C09"):
+        res.data["witness"][p] = {"count": len(runs), "rule": rule}
+    res.data["samples"]["*"] = [runs[0]["cfg"], runs[-1]["cfg"]]
+    os.remove(trace)
+
+
+def replay_footprint(rep, work):
+    trace = core.drive("footprint", [rep["run"]], work, "replay", timeout=7000)
+    tv = tlc.validate_trace("FootprintTrace", "FootprintTrace.cfg", trace, os.path.join(work, "tv"))
+    return tv["viol"] + core.crash_viols(("C10",))
